@@ -130,11 +130,12 @@ let parse_chunks (s : string) : chunk list =
       (String.split_on_char ';' s)
 
 type st = { mutable backend : backend; mutable s : Obj.t; mutable cfg : config; mutable is_sqlite : bool;
-            mutable trace : bool; mutable allow : id list option; mutable plan : (nat * fault) list }
+            mutable trace : bool; mutable allow : id list option; mutable plan : (nat * fault) list;
+            mutable conc_n : int; mutable conc_reqs : (env * hresp hprog) list }
 
 let () =
   let bk = if Array.length Sys.argv > 1 then Sys.argv.(1) else "inmem" in
-  let st = { backend = inMemB; s = Obj.repr im_empty; cfg = default_config; is_sqlite = false; trace = false; allow = None; plan = [] } in
+  let st = { backend = inMemB; s = Obj.repr im_empty; cfg = default_config; is_sqlite = false; trace = false; allow = None; plan = []; conc_n = 0; conc_reqs = [] } in
   let reset which =
     if which = "sqlite" then (st.backend <- sqliteB; st.s <- Obj.repr sq_empty; st.is_sqlite <- true)
     else (st.backend <- inMemB; st.s <- Obj.repr im_empty; st.is_sqlite <- false) in
@@ -143,7 +144,7 @@ let () =
   let do_op (o : op) (e : env) =
     let ((r, s'), tr) =
       if st.plan = [] then step st.backend st.cfg st.s (o, e)
-      else (let ((r, s'), _) = fstep st.backend st.cfg (plan_of st.plan) st.s (o, e) in st.plan <- []; ((r, s'), [])) in
+      else (let ((r, s'), _) = fault_step st.backend st.cfg (plan_of st.plan) st.s (o, e) in st.plan <- []; ((r, s'), [])) in
     st.s <- s';
     if st.trace && false then
       Printf.printf "%s | %s\n" (string_of_resp r) (String.concat "," (List.map string_of_label tr))
@@ -238,11 +239,33 @@ let () =
           let cty = (match ct with "history" -> CTHistory | "snapshot" -> CTSnapshot | "absent" -> CTAbsent | _ -> CTOther) in
           let rq = { rq_method = meth; rq_path = path; rq_cid = cidh; rq_ctype = cty; rq_chunks = parse_chunks chunks } in
           let env0 = { e_fresh = n_of_string fresh; e_now = z_of_string now } in
+          if st.conc_n > 0 then begin
+            (* inside a `conc` block: the request is one of the overlapping threads *)
+            st.conc_reqs <- st.conc_reqs @ [(env0, http_handler st.cfg st.allow rq)];
+            st.conc_n <- st.conc_n - 1
+          end else
           let ((r, s'), tr) =
             if st.plan = [] then http_step st.backend st.cfg st.allow st.s (rq, env0)
-            else (let ((r, s'), _) = http_fstep st.backend st.cfg st.allow (plan_of st.plan) st.s (rq, env0) in st.plan <- []; ((r, s'), [])) in
+            else (let ((r, s'), _) = fault_http_step st.backend st.cfg st.allow (plan_of st.plan) st.s (rq, env0) in st.plan <- []; ((r, s'), [])) in
           st.s <- s';
           Printf.printf "%s | %s\n" (string_of_hresp r) (String.concat "," (List.map string_of_label tr))
+        | ["conc"; _; n] -> st.conc_n <- int_of_string n; st.conc_reqs <- []; print_endline "conc"
+        | ["csched"; spec] ->
+          let tok_of (x : string) : tok =
+            match String.index_opt x '!' with
+            | Some b ->
+              let left = String.sub x 0 b and j = String.sub x (b + 1) (String.length x - b - 1) in
+              (match String.split_on_char '.' left with
+               | [i; k] -> TProbe (nat_of_int (int_of_string i), nat_of_int (int_of_string k), nat_of_int (int_of_string j))
+               | _ -> TRun O)
+            | None -> TRun (nat_of_int (int_of_string x)) in
+          let toks = if spec = "-" then [] else List.map tok_of (String.split_on_char ',' spec) in
+          let (rs, s') = rig_results st.backend st.s st.conc_reqs toks in
+          st.s <- s'; st.conc_reqs <- []; st.conc_n <- 0;
+          List.iter (fun r -> match r with
+              | Some r -> Printf.printf "%s | \n" (string_of_hresp r)
+              | None -> print_endline "http UNFINISHED") rs;
+          print_endline "sched -"
         | ["rows"] ->
           if st.is_sqlite then print_endline (string_of_tables (Obj.obj st.s)) else print_endline "rows na"
         | _ -> Printf.printf "?? %s\n" line)
